@@ -701,6 +701,8 @@ class Interp:
         for inner in ast.walk(expr):
             if isinstance(inner, ast.Name) and inner.id in klass.class_assigns and klass.class_assigns[inner.id] is not expr:
                 frame.locals[inner.id] = self.eval_class_assign(klass, klass.class_assigns[inner.id], depth + 1)
+            elif isinstance(inner, ast.Name) and inner.id in klass.methods:
+                frame.locals[inner.id] = FuncRef(klass.methods[inner.id])  # the plain function, as in the class body
         return self.eval(expr, frame)
 
     # ------------------------------------------------------------ attribute access
@@ -1069,7 +1071,13 @@ class Interp:
             # these are iterators: they keep their position between a for loop and next()
             if value.generator is None:
                 value.generator = self._fresh_iterator(value)
-            yield from value.generator
+            # not "yield from": leaving a for loop early closes this generator, and the iterator must survive that
+            while True:
+                try:
+                    item = next(value.generator)
+                except StopIteration:
+                    return
+                yield item
         else:
             hook = self.externals.get("iterate")
             if hook is not None:
@@ -1998,6 +2006,8 @@ def _zip(interp, args, kwargs):
 
 @_ext("builtins.range")
 def _range(interp, args, kwargs):
+    # a region representative counts as its value (the largest one stands for everything beyond the rows there are)
+    args = [a.value if isinstance(a, RInt) and _is_int(a.value) else a for a in args]
     if not all(_is_int(a) for a in args):
         hook = interp.externals.get("range")
         if hook is not None:
